@@ -5,14 +5,14 @@ import Cellml.Tie.GraphBuild
 /-! # Ties of package Graph (C09, also C15): cellmlmanip/model.py `Model.graph`, `Model.graph_with_sympy_numbers`,
     `Model.get_equations_for` = the hand model `Cellml/C09/Model.lean`
 
-    * `Cellml.Tie.graph_tie` (+ `graph_cached`, `graph_independent`)              — GraphBuild.lean
-    * `Cellml.Tie.graphNum_tie`, `graphNum_tie_built` (+ `graphNum_cached`, `graphNum_error`) — GraphNum.lean
-    * `Cellml.Tie.getEquationsFor_tie`                                              — GraphEqs.lean
+    * `Cellml.Tie.PGraph.graph_tie` (+ `graph_cached`, `graph_independent`)              — GraphBuild.lean
+    * `Cellml.Tie.PGraph.graphNum_tie`, `graphNum_tie_built` (+ `graphNum_cached`, `graphNum_error`) — GraphNum.lean
+    * `Cellml.Tie.PGraph.getEquationsFor_tie`                                              — GraphEqs.lean
 
     The two theorems below connect the three: what the generated `graph` / `graph_with_sympy_numbers` return is what
     the view of `get_equations_for` reads as `self.graph` / `self.graph_with_sympy_numbers`. -/
 
-namespace Cellml.Tie
+namespace Cellml.Tie.PGraph
 open C09 Cellml.Gen
 
 theorem addRefs_err (sf : Node → Bool) (lhs : Node) : ∀ (rs : List Node) (g : Graph) (x : Err),
@@ -75,4 +75,4 @@ theorem graphNum_feeds_eqsView (key : Node → String) (eqs : List Eqn) (dummies
   rw [graphNum_tie_built key eqs dummies g hb hS]
   simp [eqsView, hb, errClass, Except.map]
 
-end Cellml.Tie
+end Cellml.Tie.PGraph
